@@ -2,7 +2,8 @@
 From Coq Require Import List NArith ZArith String Bool.
 From DT Require Import GenStatus GenEvent GenMsgType FsmTypes GenFsm Fsm Machine View Caches Msg Node
      FsmFacts NodeFacts C04Proofs.
-From DT Require UpdateProofs.
+From DT Require UpdateProofs C04Restart.
+From DT Require GenDecide DecideEq.
 Import ListNotations.
 
 (* a validation response reports acceptance precisely when validation succeeded AND accepted;
@@ -76,3 +77,35 @@ Theorem C04_rejecting_update_closes_transport :
        if negb ok then Ret ROther else exec (ITransport (TClose (chid_of c))) ;;; Ret ROk).
 Proof. exact UpdateProofs.rejecting_update_closes_transport. Qed.
 Print Assumptions C04_rejecting_update_closes_transport.
+
+(* restart requests: the manager reports one as accepted (no error, validator's result accepting) only
+   if its own check passed (C05_restart_request_check: from the initiator of a live channel, repeating
+   the original base cid and voucher), the opening voucher's type is registered, and the validator of
+   that type was asked about the restart (the call is in the output trace) and accepted without error *)
+Theorem C04_restart_accept_requires_validation :
+  forall k m s,
+    let '(x, s') := run (restart_request k m) s in
+    snd x = false -> vr_accepted (snd (fst x)) = true ->
+      fst (run (validate_restart_request (k_init k) k m) s) = true /\
+      vr_err (snd (fst x)) = false /\
+      exists c, In (NValidate VRestart (chid_of c)) (s_out s') /\
+                existsb (String.eqb (v_type (first_voucher c))) (n_registry (s_node s)) = true.
+Proof. exact C04Restart.restart_requires_validation. Qed.
+Print Assumptions C04_restart_accept_requires_validation.
+
+(* the pause rule the theorems above are about (Node.leave_paused: forced pause, or finalization
+   still required on a channel in finalization, or a non-zero data limit already reached by the
+   limited total) is the one in the source: GenDecide.gen_LeaveRequestPaused is regenerated from
+   manager.go ValidationResult.LeaveRequestPaused on every run *)
+Theorem C04_pause_rule_is_the_sources :
+  forall vr c, GenDecide.gen_LeaveRequestPaused vr c = Node.leave_paused vr c.
+Proof. exact DecideEq.leave_paused_is_source. Qed.
+Print Assumptions C04_pause_rule_is_the_sources.
+
+(* the signal handed back to whoever carried a request (Node.request_error: a validation error
+   first, then rejection, then "stay paused") is the one in the source: regenerated from
+   impl/receiving_requests.go manager.requestError on every run *)
+Theorem C04_request_signal_is_the_sources :
+  forall vr err stay, GenDecide.gen_requestError vr err stay = Node.request_error vr err stay.
+Proof. exact DecideEq.request_error_is_source. Qed.
+Print Assumptions C04_request_signal_is_the_sources.
